@@ -431,8 +431,8 @@ def c19_tail_chunk(arg):
     case = minimal_cases()[ci] if ci >= 0 else tail_variants()[-ci - 1]
     recs = []
     n = len(case.data)
-    cuts = sorted(set((n - back) for back in (1, 2, 3, 4, 5, 8, 12, 16, 40, 100, 256, 700, 1500, 4000)
-                      if n - back >= 0))
+    backs = list(range(1, 33)) + [40, 48, 64, 100, 161, 256, 700, 1500, 4000]
+    cuts = sorted(set((n - back) for back in backs if n - back >= 0))
     envs = (Env(), Env("dash", "dash", "small", "small", n, n))
     line = LINE_BYTES.get(ci)
     if line:
@@ -442,7 +442,7 @@ def c19_tail_chunk(arg):
         envs = (Env(),)
     for k in cuts[part::nparts]:
         plan = [{"kind": "truncate", "at": k}]
-        for env in envs:
+        for env in (envs if n - k <= 5 or line else envs[:1]):
             if not env_valid(case.tool, env):
                 continue
             data, dmg, eff, run, verdict, cls = c19_execute(case, plan, env)
